@@ -44,6 +44,14 @@ def graphs(tier):
     for ab1 in (False, True):
         yield 'tworoots', cxref.Graph({'r1': E(abstract=ab1), 'r2': E(), 'm': E(['r1', 'r2'])})
         yield 'tworoots3', cxref.Graph({'r1': E(abstract=ab1), 'r2': E(), 'm': E(['r1', 'r2']), 'n': E(['r1'])})
+    # a subtype of two separate hierarchies, each with its own constraint: m SUBTYPE OF (p1, q2)
+    two = [None, ('ONEOF', ['%s1', '%s2']), ('ANDOR', ['%s1', '%s2'])] if tier == 'quick' else [None, ('ONEOF', ['%s1', '%s2']), ('ANDOR', ['%s1', '%s2']), ('AND', ['%s1', '%s2'])]
+    sub = lambda x, r: None if x is None else (x[0], [k % r for k in x[1]])
+    for xp in two:
+        for xq in two:
+            for abp in ((False, True) if tier != 'quick' else (True,)):
+                yield 'twotrees', cxref.Graph({'p': E(abstract=abp, expr=sub(xp, 'p')), 'p1': E(['p']), 'p2': E(['p']), 'q': E(expr=sub(xq, 'q')), 'q1': E(['q']), 'q2': E(['q']),
+                                               'm': E(['p1', 'q2'])})
     yield 'abstower', cxref.Graph({'r': E(abstract=True), 'a': E(['r'], abstract=True), 'a1': E(['a'])})
     yield 'abstower2', cxref.Graph({'r': E(abstract=True, expr=('ONEOF', ['a', 'b'])), 'a': E(['r'], abstract=True), 'b': E(['r']), 'a1': E(['a'])})
     if tier == 'thorough':
@@ -78,6 +86,7 @@ def _init(libdir, variant):
 def query(job):
     """job: list of name lists -> list of (sev | ('crash', key))"""
     d = _W['d']
+    d.recycle_if_big()
     out = []
     for names in job:
         try:
@@ -138,7 +147,10 @@ def run_family(chk, tier, variant='san'):
                 continue
             acc = r[0] > 0
             byset.setdefault((pre, frozenset(sub)), set()).add(acc)
-            if not cxref.connected(g, sub):
+            closed = all(sp in sub for n in sub for sp in g.ents[n]['supers'])
+            if closed and not cxref.connected(g, sub):
+                # complete but unrelated hierarchies side by side: the property text can be read both ways, no verdict.  (A set that lacks a
+                # supertype of one of its members is illegal by the first clause of the property, connected or not.)
                 chk.outcome('unjudged-disconnected')
                 continue
             if len(sub) == 1:
@@ -251,8 +263,8 @@ def main():
     chk.rule = ('programs: inheritance graphs of 3-5 entities (stars with 2 and 3 subtypes, chains, two-level trees, diamonds, two roots, abstract towers; thorough adds 6-entity trees and diamonds) '
                 'with every ONEOF/AND/ANDOR constraint tree of depth <= 2 over the direct subtypes, every subset of subtypes left unmentioned, +-ABSTRACT; packed 60 graphs per schema library; '
                 'inputs: ALL 2^n-1 non-empty subsets of the entity names of each graph in every part order (n<=3; thorough n<=4; sorted+reversed beyond); state = (graph, subset, order), '
-                'transition = one STEPcomplex construction on the sanitizer build; oracle = cxref.legal for connected subsets')
-    chk.assumptions = ['disconnected subsets are explored for memory safety only', 'accepted = severity above WARNING, as STEPfile::CreateSubSuperInstance decides',
+                'transition = one STEPcomplex construction on the sanitizer build; oracle = cxref.legal for every subset that is connected or lacks a supertype of one of its members')
+    chk.assumptions = ['supertype-closed but disconnected subsets (complete unrelated hierarchies side by side) are explored for memory safety only', 'accepted = severity above WARNING, as STEPfile::CreateSubSuperInstance decides',
                        'cxref follows the property text: closure under supertypes, constraint over the direct subtypes present with unmentioned subtypes ANDOR-ed, ABSTRACT needs a subtype']
     run_family(chk, args.tier)
     if chk.outcomes.get('refused-illegal', 0) == 0 or chk.outcomes.get('accepted-legal', 0) == 0:
